@@ -96,6 +96,11 @@ impl RwLock {
         }
 
         super::execution(|execution| {
+            // Execution has deadlocked, cleanup does not matter.
+            if !execution.threads.is_active() {
+                return;
+            }
+
             let state = self.state.get_mut(&mut execution.objects);
             let thread_id = execution.threads.active_id();
 
@@ -128,6 +133,11 @@ impl RwLock {
         }
 
         super::execution(|execution| {
+            // Execution has deadlocked, cleanup does not matter.
+            if !execution.threads.is_active() {
+                return;
+            }
+
             let state = self.state.get_mut(&mut execution.objects);
 
             state.lock = None;
